@@ -123,6 +123,9 @@ def generate(seed, tier):
                     "loader": rng.choice(["host", "host", "fresh"]),
                     # additionally run exported functions of the stored module through nslr.py
                     "nslr": rng.random() < 0.3,
+                    # where the fresh references come from: compiled in the reader before it loads
+                    # anything, or compiled by the harness process while the reader only loads
+                    "refs": rng.choice(["reader", "worker"]),
                 }
             )
     if rng.random() < 0.08:
@@ -408,6 +411,22 @@ def _execute(sc, root, want_texts):
                 bump("loads_by_bare_name")
             elif not key.endswith(".nslir"):
                 bump("loads_of_suffixless_file")
+        worker_refs = st.get("refs") == "worker" and st["how"] == "child"
+        if worker_refs:
+            # a load-only reader process; the references are observed here, in another process
+            os.chdir(store)
+            wres = []
+            for t in fresh_tasks:
+                m, status = _compile_inproc(t["src"], t["opt"])
+                if m is None:
+                    wres.append({"status": status})
+                else:
+                    with core.Quiet():
+                        wres.append({"status": "ok", "obs": obs17.observe_module(m, sc.get("obs_seed", 0),
+                                                                                   with_text=bool(want_texts))})
+            bump("reads_with_references_from_another_process")
+            n_fresh = len(fresh_tasks)
+            fresh_tasks = []
         tasks = fresh_tasks + load_tasks
         if st["how"] == "child":
             plan = {"tree": tree, "cwd": cwd, "seed": sc.get("obs_seed", 0), "tasks": tasks, "texts": bool(want_texts),
@@ -454,8 +473,10 @@ def _execute(sc, root, want_texts):
             r = _nslr_reads(sc, st, si, plan_names, model, store, cwd, tree, log, bump)
             if r is not None:
                 return done(*r[:3], **r[3])
+        if worker_refs:
+            results = wres + results
         kf = 0
-        kl = len(fresh_tasks)
+        kl = n_fresh if worker_refs else len(fresh_tasks)
         for n, style, rel in plan_names:
             loaded = results[kl]
             kl += 1
